@@ -21,7 +21,9 @@ REGISTRY_OPS = [r"collections::HashMap::<K, V, S(, A)?>::(get_mut|get|insert|rem
                 r"collections::HashSet::<T, S(, A)?>::(contains|insert|remove|get)$"]
 
 
-REG_IDENTITY = M.IDENTITY_CALLS + [r"Result::<T, E>::(unwrap|expect)$", r"::get_mut$", r"Mutex.*::lock$", r"HashMap::<K, V, S(, A)?>::get$"]
+REG_IDENTITY = M.IDENTITY_CALLS + [r"Result::<T, E>::(unwrap|expect)$", r"::get_mut$", r"Mutex.*::lock$", r"HashMap::<K, V, S(, A)?>::get$",
+                                   # `map.entry(key).or_default()` hands out the same slot as get_mut (and creates it)
+                                   r"Map::<K, V(, S)?(, A)?>::entry$", r"_map::Entry::<.*>::(or_default|or_insert|or_insert_with|or_insert_with_key)$"]
 ADAPT_IDENTITY = M.IDENTITY_CALLS + [r"Option::<T>::ok_or(_else)?$", r"Result::<T, E>::map_err$", r"export::path::absolute$"]
 
 
